@@ -121,3 +121,20 @@ def parse_template(text):
             continue
         parsed.append(("lit", o))
     return mn, parsed
+
+
+def fold_verdict(outs_all, what):
+    """Interpretation of a fold that did not yield exactly one normal result.
+    All paths diverge (the folded function panics on this input): returns a message - that is a property of the code under analysis.
+    Anything else (unknown values forked the path, several results): the analysis cannot follow the code - AnalysisError, never a
+    violation."""
+    normal = [o for o in outs_all if not getattr(o, "diverged", None)]
+    if len(normal) == 1:
+        return None
+    if not normal and outs_all:
+        d = outs_all[0].diverged
+        why = ""
+        if isinstance(d, dict):
+            why = " (%s at %s:%s)" % (d.get("callee_name") or "diverges", (d.get("sp") or {}).get("file"), (d.get("sp") or {}).get("line"))
+        return "%s: the function panics on this input%s" % (what, why)
+    raise AnalysisError("%s could not be folded (%d normal paths of %d): the analysis cannot follow this code" % (what, len(normal), len(outs_all)))
